@@ -32,16 +32,16 @@ def eye_l(n, sub=None):
 def cases(thorough):
     cs = []
     vs3 = [(1, 1, 0), (1, 1, 1), (1, -1, 2), (1, 0, 0)]
-    ds3 = [(1, 2, 4), (3, -1, 2), (5, 0, -2)]
-    ls3 = [eye_l(3), eye_l(3, {(1, 0): 1, (2, 1): -1}), eye_l(3, {(1, 0): 2, (2, 0): 1, (2, 1): 1})]
+    ds3 = [(1, 2, 4), (3, -1, 2), (5, 0, -2)] + ([(-3, -1, -6), (7, 2, 1), (0, 4, -4)] if thorough else [])
+    ls3 = [eye_l(3), eye_l(3, {(1, 0): 1, (2, 1): -1}), eye_l(3, {(1, 0): 2, (2, 0): 1, (2, 1): 1})] + ([eye_l(3, {(2, 0): -1}), eye_l(3, {(1, 0): -1, (2, 0): 1, (2, 1): 2})] if thorough else [])
     for v, d, l in itertools.product(vs3, ds3, ls3):
         cs.append(dict(v=v, d=d, l=l, nmodes=0, sigma=(0, 1)))
-    vs5 = [(1, 1, 1, 1, 0), (1, -1, 0, 1, 1)] + ([(0, 1, 1, -1, 1)] if thorough else [])     # v'v = 4: dyadic reflector
-    ds5 = [(1, 2, 3, 5, 6), (4, -1, 2, 6, 1)]
-    ls5 = [eye_l(5), eye_l(5, {(1, 0): 1, (2, 1): -1, (3, 2): 1, (4, 3): 1})]
+    vs5 = [(1, 1, 1, 1, 0), (1, -1, 0, 1, 1), (0, 1, 1, -1, 1)] + ([(1, 0, -1, 1, -1), (1, 1, 0, 0, 0), (0, 0, 1, 0, 0)] if thorough else [])     # v'v in {1, 2, 4}: dyadic reflector
+    ds5 = [(1, 2, 3, 5, 6), (4, -1, 2, 6, 1)] + ([(-2, 7, 0, 3, 5), (6, 5, 3, 2, 1)] if thorough else [])
+    ls5 = [eye_l(5), eye_l(5, {(1, 0): 1, (2, 1): -1, (3, 2): 1, (4, 3): 1})] + ([eye_l(5, {(2, 0): 1, (4, 1): -1, (3, 0): 1})] if thorough else [])
     for v, d, l in itertools.product(vs5, ds5, ls5):
         cs.append(dict(v=v, d=d, l=l, nmodes=0, sigma=(0, 1)))
-        for nm, sg in ((2, (5, 2)), (2, (11, 2)), (3, (7, 4))) + (((2, (-1, 2)), (3, (9, 2))) if thorough else ()):
+        for nm, sg in ((2, (5, 2)), (2, (11, 2)), (3, (7, 4)), (2, (-1, 2)), (3, (9, 2))) + (((1, (13, 4)), (3, (-3, 2)), (2, (1, 4))) if thorough else ()):
             cs.append(dict(v=v, d=d, l=l, nmodes=nm, sigma=sg))
     return cs
 
@@ -213,4 +213,4 @@ def run(chk, replay=None):
         chk.case({"A": c["A"], "B": c["B"], "nmodes": c["nmodes"], "sigma": c["sigma"]})
         if res:
             chk.violation("C11/" + res[0], res[1], c)
-    observations(chk, chk.seed + 6, 30 if thorough else 6)
+    observations(chk, chk.seed + 6, 60 if thorough else 12)
